@@ -49,12 +49,13 @@ theorem escaping_name_no_effect (dest : Str) (o : Opts) (e : Entry) (es dirs : L
 
 /-- the same in layer apply: nothing but the running size changes -/
 theorem escaping_name_no_effect_layer (dest : Str) (o : Opts) (e : Entry) (es : List Entry) (st : LState) (w : World)
-    (out : Out) (hm : hasPrefix (clean e.name) whMetaPrefix = false)
+    (out : Out) (hx : e.typ ≠ .xglobal) (hm : hasPrefix (clean e.name) whMetaPrefix = false)
     (hg : guardName dest (clean e.name) = .error out) (ht : st.tmp = []) :
     ((layerLoop dest o (e :: es) st).run w).2 = w ∧ ((layerLoop dest o (e :: es) st).run w).1.1 = out := by
   have hs : (hasPrefix (clean e.name) whMetaPrefix && hasPrefix (clean e.name) whLinkDir && e.typ == Typ.reg) = false := by
     simp [hm]
-  simp only [layerLoop, stageP, hs, Bool.false_eq_true, if_false]
+  have hxg : (e.typ == Typ.xglobal) = false := by simpa using hx
+  simp only [layerLoop, hxg, stageP, hs, Bool.false_eq_true, if_false]
   show ((Prog.bind (Prog.ret _) _).run w).2 = w ∧ _
   simp only [Prog.bind, hm, Bool.false_and, Bool.false_eq_true, if_false, hg, layerFinish, ht, ne_eq, not_true_eq_false]
   simp [Prog.run, bind, Prog.bind, pure]
